@@ -24,8 +24,8 @@ import (
 	"github.com/transparency-dev/witness/internal/verif/kit/wit"
 )
 
-var witnessAnswers = []string{"valid", "missing", "wrong_log_key", "no_witness_sig", "invalid_witness_sig", "corrupted", "other_logs_checkpoint", "valid_two_keys", "wrong_origin", "witness_error"}
-var distAnswers = []string{"200", "400", "404", "500", "reset", "302_to_200", "307_to_404", "307_to_200"}
+var witnessAnswers = []string{"valid", "missing", "wrong_log_key", "no_witness_sig", "invalid_witness_sig", "corrupted", "other_logs_checkpoint", "valid_two_keys", "wrong_origin", "witness_error", "witness_timeout"}
+var distAnswers = []string{"200", "400", "404", "500", "reset", "302_to_200", "307_to_404", "307_to_200", "timeout"}
 
 // wait sleeps d unless ctx ends first.
 func wait(ctx context.Context, d time.Duration) error {
@@ -123,6 +123,9 @@ func (d *stubDist) RoundTrip(q *http.Request) (*http.Response, error) {
 		return mk(500, nil)
 	case "reset":
 		return nil, errors.New("read: connection reset by peer")
+	case "timeout":
+		// a deadline that expired inside the transport for this one request; the cycle's context is alive
+		return nil, fmt.Errorf("awaiting response headers: %w", context.DeadlineExceeded)
 	case "302_to_200":
 		return mk(302, map[string]string{"Location": "/redirected/200/x"})
 	case "307_to_404":
@@ -138,7 +141,7 @@ func main() {
 	wit.EnsureMetrics(nil)
 	run := ev.Start("C15", "exploration")
 	defer run.Finish()
-	run.Rule("unit = one DistributeOnce cycle of the real distributor over 1-6 logs against a stub witness (per log one of: valid, missing, wrong log key, no witness signature, invalid witness signature, corrupted, another log's checkpoint, valid with two witness keys, wrong origin, witness error) and a stub distributor (200, 400, 404, 500, connection reset, 302->GET 200, 307->404, 307->200); all witness x distributor answer pairs are enumerated for single logs, sets are PRNG-drawn. Every request reaching the stub is judged (method, path, body identical to the witness's answer, body verifies by kit/refnote); per-log failure accounting is compared with DistributeOnce's result; one to three rounds run on the same Distributor instance and the last one is judged. evaluations = (log, cycle) pairs; nontrivial = distinct (witness answer, distributor answer, set size)")
+	run.Rule("unit = one DistributeOnce cycle of the real distributor over 1-6 logs against a stub witness (per log one of: valid, missing, wrong log key, no witness signature, invalid witness signature, corrupted, another log's checkpoint, valid with two witness keys, wrong origin, witness error, a witness error that wraps a context error while the cycle's context is alive) and a stub distributor (200, 400, 404, 500, connection reset, a transport-level deadline error, 302->GET 200, 307->404, 307->200); all witness x distributor answer pairs are enumerated for single logs, sets are PRNG-drawn. Every request reaching the stub is judged (method, path, body identical to the witness's answer, body verifies by kit/refnote); per-log failure accounting is compared with DistributeOnce's result; one to three rounds run on the same Distributor instance and the last one is judged. evaluations = (log, cycle) pairs; nontrivial = distinct (witness answer, distributor answer, set size)")
 	run.Assume("307 -> 200 is executed but its success/failure is not judged (the statement leaves it open)")
 	run.Floor("pairs_single", int64(len(witnessAnswers)*len(distAnswers)))
 	run.Floor("pushed_valid", 200)
@@ -253,6 +256,9 @@ func cycle(run *ev.Run, unit int64, r *rand.Rand, ws, ds []string) {
 			sw.answers[cl.ID] = cosign(l, l.Key, l.Origin+"/v2", "v1")
 		case "witness_error":
 			sw.errs[cl.ID] = errors.New("witness unavailable")
+		case "witness_timeout":
+			// the witness's own storage deadline expired for this one read; the cycle's context is alive
+			sw.errs[cl.ID] = fmt.Errorf("reading checkpoint: %w", []error{context.DeadlineExceeded, context.Canceled}[r.IntN(2)])
 		}
 	}
 	d, err := rest.NewDistributor("http://distributor.invalid", &http.Client{Transport: sd}, clogs, witV, sw)
